@@ -117,7 +117,9 @@ func (f *Formatter) Format(vcl *ast.VCL) io.Reader {
 	}
 	buf.WriteString("\n")
 
-	return bytes.NewReader(buf.Bytes())
+	// Empty lines at the top of the file are meaningless, and keeping one makes the second
+	// formatting differ from the first one (the parser counts an empty line from the second line feed).
+	return strings.NewReader(strings.TrimLeft(buf.String(), "\n"))
 }
 
 // Calculate and crate ident strings from config (shorthand, without passing config)
